@@ -488,7 +488,10 @@ def case_family(spec, rec):
             raise Violation(f"rate_above_cap:{fam}",
                             f"rho({n})={rho:.3f} > cap {cap:.3f} "
                             f"(nu={spec['nu']})")
-        if n >= 16 and it > it16 + 3:
+        # three extra cycles, or 30 % for slow families (V(1,1) on
+        # stretched cells needs 14 cycles at 16^3 and 18 at 32^3 AND 64^3:
+        # pre-asymptotic at 16^3, within the rate bound above)
+        if n >= 16 and it > max(it16 + 3, int(np.ceil(1.3*it16))):
             raise Violation(f"cycles_grow_with_refinement:{fam}",
                             f"{it} cycles at n={n}, {it16} at 16")
         if n >= 16 and (w > capw or w > 1.6*w16 + 0.03):
@@ -499,7 +502,7 @@ def case_family(spec, rec):
                             f"tol={r['tol']:g}")
     if nc:
         it, rho, w = nc['it'], nc['rho'], nc['worst']
-        if rho > cap or rho > 1.5*r16 + 0.05 or it > it16 + 4:
+        if rho > cap or rho > 1.5*r16 + 0.05 or it > max(it16 + 4, int(np.ceil(1.3*it16)) + 1):
             raise Violation(f"noncubic_rate:{fam}",
                             f"shape {shp}: rho="
                             f"{rho:.3f}, {it} cycles; rho(16)={r16:.3f}, "
